@@ -5,6 +5,8 @@
 -/
 import TypedpyModel.Drive.Wire
 import TypedpyModel.Spec.Conforms
+import TypedpyModel.Spec.WfDecl
+import TypedpyModel.Sem.Entry
 namespace Typedpy.Drive.Construct
 open Lean (Json)
 open Typedpy Typedpy.Wire
@@ -22,6 +24,18 @@ def fieldErrs (O : Oracles) (cls : FieldDecl) (kw : List (String × PyVal)) : Li
         | .error e => some (errName e)
   | _ => []
 
+def entryOfJson (j : Json) : Except String EntryOp := do
+  let op ← (← j.getObjVal? "op").getStr?
+  let kw ← match optField j "kw" with | none => pure [] | some x => kwOfJson x
+  match op with
+  | "copy" => pure .copy
+  | "deepcopy" => pure .deepcopy
+  | "pickle" => pure .pickle
+  | "shallowClone" => pure (.shallowClone kw)
+  | "fromOtherClass" => pure (.fromOtherClass (← strList j "ignore") kw)
+  | "castTo" => pure .castTo
+  | s => throw s!"entry op {s}"
+
 def run (j : Json) : Except String Json := do
   let O ← oraclesOfJson j
   let cls ← declOfJson (← j.getObjVal? "cls")
@@ -31,6 +45,15 @@ def run (j : Json) : Except String Json := do
                ("admits", Json.bool (admitsKw O cls kw)),
                ("norm", valToJson (normKw O cls kw)),
                ("errs", Json.arr ((fieldErrs O cls kw).map Json.str).toArray)]
+  let chainPart ← match optField j "chain" with
+    | none => pure []
+    | some x => do
+      let ops ← (← x.getArr?).toList.mapM entryOfJson
+      let r := match res with
+        | .ok inst => runChain O cls inst ops
+        | .error e => .error e
+      pure [("chainRes", resToJson r)]
+  let base := base ++ chainPart ++ [("wfDecl", Json.bool (wfDecl cls))]
   let extra ← match optField j "impl" with
     | none => pure []
     | some x => do
